@@ -660,8 +660,12 @@ fn c15_plans(n_ops: usize, p: usize) -> Vec<Vec<Inj>> {
     }
     let mk = |k: usize, s: &(usize, SMode)| Inj { at: s.0, mode: s.1, c: 0x7100 + k as i32, drop_first: false };
     let compatible = |a: &(usize, SMode), b: &(usize, SMode)| -> bool {
-        // alternate and empty-alternate on one site: the text does not say which wins
-        !(a.0 == b.0 && ((a.1 == SMode::Alternate && b.1 == SMode::EmptyAlternate) || (a.1 == SMode::EmptyAlternate && b.1 == SMode::Alternate)))
+        // alternate and removal on one site: a removal that comes LAST leaves nothing of the replacement
+        // requested before it (the caller's last word is "remove"; `empty_alternate` is documented as
+        // injecting an empty alternate) - that order is judged. A removal followed by alternate code is
+        // not enumerated: the text does not say whether the removal is sticky. Plans list their
+        // injections in (site, mode) order with alternate before removal, so only the judged order arises.
+        !(a.0 == b.0 && a.1 == SMode::EmptyAlternate && b.1 == SMode::Alternate)
     };
     let mut out = vec![];
     for (i, a) in sites.iter().enumerate() {
